@@ -81,11 +81,12 @@ impl BlockEncoder {
             self.read_window();
 
             if self.blocks.is_empty() {
-                if self.nb_pkt_sent == 0 {
+                // Only an empty object is represented by a lone close-object packet. A source
+                // that could not be read at all (I/O error on the first read) sends nothing
+                if self.nb_pkt_sent == 0 && self.file.object.transfer_length == 0 {
                     log::debug!("Empty file ? Send a pkt containing close object flag");
                     self.nb_pkt_sent += 1;
 
-                    debug_assert!(self.file.object.transfer_length == 0);
                     return Some(pkt::Pkt {
                         payload: Vec::new(),
                         transfer_length: self.file.object.transfer_length,
